@@ -1,4 +1,139 @@
 import Model.Base.Proto
+import Model.Stats.Descr
+import Model.Spec.StatsSpec
 
-/-- stub: replaced when the property's driver is built -/
-def main : IO Unit := pure ()
+/-!
+C12 driver. For every `case` line of the Go harness it prints
+
+  obs  … f64   the float64 instance of the model (must equal Go's bits)
+  obs  … q     the exact (ℚ) instance of the model judged against Go's value with a tolerance
+  spec …       the textbook specification judged against Go's value / the numeric property
+
+Tolerances (k ulps of the data's scale) are the constants below; see notes/C12.md.
+-/
+
+namespace Driver.C12
+open Proto Stats Spec.Stats
+
+/-! tolerances, in ulps of the stated scale -/
+def kMean : Nat := 64        -- ulp(max|x|)
+def kVar : Nat := 256        -- ulp(max|x|)·D + ulp(D²), D = max|x − x̄|
+def kPct : Nat := 4          -- ulp(max|x|)
+def kPos : Nat := 4          -- ulp(N+1) · (gap between neighbouring order statistics)
+def kGeo : Nat := 64         -- relative 2^-52 · max(1, max|ln x|)
+
+def nanBits : F64.Bits := F64.nan
+
+def bits? (s : String) : Option F64.Bits := if s == "nan" then some nanBits else F64.ofHex? s
+def bitsD (s : String) : F64.Bits := (bits? s).getD nanBits
+def bitsList (s : String) : List F64.Bits := if s == "-" then [] else (s.splitOn ",").map bitsD
+def showB (b : F64.Bits) : String := if F64.isNaN b then "nan" else F64.toHex b
+def showFl (x : Fl) : String := showB x.bits
+def showOpt (x : Option Fl) : String := match x with | some v => showFl v | none => "nan"
+def showList (l : List String) : String := if l.isEmpty then "-" else ",".intercalate l
+
+/-- a function given by a finite table of (argument bits, result bits); NaN outside the table -/
+def table (t : List (F64.Bits × F64.Bits)) (x : Fl) : Fl :=
+  match t.find? (fun p => p.1 == x.bits) with
+  | some p => ⟨p.2⟩
+  | none => Fl.nan
+
+def allOk (l : List String) : String :=
+  match l.find? (· != "ok") with
+  | some s => s
+  | none => "ok"
+
+def descr (l : Line) : IO Unit := do
+  let id := l.id
+  let xsB := bitsList (l.getD "xs")
+  let xs : List Fl := xsB.map Fl.mk
+  let sorted := l.getD "sorted" == "1"
+  let psB := bitsList (l.getD "ps")
+  let ps : List Fl := psB.map Fl.mk
+  let lx := bitsList (l.getD "lx")
+  let logT := table (xsB.zip lx)
+  let expT := table [(bitsD (l.getD "mlog"), bitsD (l.getD "emlog"))]
+  -- K (i): float64 instance
+  let mean := Descr.mean xs
+  let var := Descr.variance xs
+  let geo := Descr.geoMean logT expT xs
+  let sb := Descr.sampleBounds xs sorted
+  let bb := Descr.bounds xs
+  let pct := ps.map fun p => showOpt (Descr.percentile xs sorted p)
+  let iqr := Descr.iqr xs sorted
+  IO.println s!"obs {id} f64 mean={showOpt mean} var={showOpt var} geo={showOpt geo} min={showOpt (sb.map (·.1))} max={showOpt (sb.map (·.2))} bmin={showOpt (bb.map (·.1))} bmax={showOpt (bb.map (·.2))} pct={showList pct} iqr={showOpt iqr}"
+  -- exact values of the data
+  let xq : List Rat := xsB.map toRat
+  let pq : List Rat := psB.map toRat
+  let M := maxAbs xq
+  let gmean := bitsD (l.getD "gmean")
+  let gvar := bitsD (l.getD "gvar")
+  let gsd := bitsD (l.getD "gsd")
+  let ggeo := bitsD (l.getD "ggeo")
+  let gmin := bitsD (l.getD "gmin")
+  let gmax := bitsD (l.getD "gmax")
+  let gpct := bitsList (l.getD "gpct")
+  let giqr := bitsD (l.getD "giqr")
+  let n := xq.length
+  let u := ulp M
+  -- K (ii): exact instance of the model
+  let qmean := (Descr.mean xq).getD 0
+  let qvar := (Descr.variance xq).getD 0
+  let D := maxAbs (xq.map (· - qmean))
+  let uv := u * D + ulp (D * D)
+  let jmean := judge gmean qmean (kMean * u)
+  let jvar := if n ≤ 1 then (if gvar == 0 then "ok" else "bad") else judge gvar qvar (kVar * uv)
+  let srt := Spec.Stats.sort xq
+  let xqs := if sorted then xq else Descr.sortXs xq
+  let qpct := pq.map fun p => (Descr.percentile xqs true p).getD 0
+  let ptol := pq.map fun p => kPct * u + kPos * positionSlack srt p
+  let jpct := allOk ((gpct.zip (qpct.zip ptol)).map fun (g, q, t) => judge g q t)
+  let iqrTol := 2 * kPct * u + kPos * (positionSlack srt (mkRat 3 4) + positionSlack srt (mkRat 1 4))
+  let jiqr := judge giqr ((Descr.iqr xqs true).getD 0) iqrTol
+  IO.println s!"obs {id} q mean={jmean} var={jvar} pct={jpct} iqr={jiqr}"
+  IO.println s!"note {id} n={n} kmean={errUnits (toRat gmean) qmean u} kvar={if n ≤ 1 then 0 else errUnits (toRat gvar) qvar uv}"
+  -- S: textbook definitions
+  let smean := Spec.Stats.mean xq
+  let svar := Spec.Stats.variance xq
+  let tmean := judge gmean smean (kMean * u)
+  let tvar := if n ≤ 1 then (if gvar == 0 then "ok" else "bad") else judge gvar svar (kVar * uv)
+  -- StdDev: the square root of Go's own variance, within one ulp
+  let tsd :=
+    if !F64.isFinite gvar then "ok" else
+    let r := sqrtRat (toRat gvar)
+    judge gsd r (ulp r + r * mkRat 1 (10 ^ 17))
+  -- GeoMean: g is the n-th root of Πx  ⇔  (g(1−δ))^n ≤ Πx ≤ (g(1+δ))^n
+  let tgeo :=
+    if xq.any (· ≤ 0) then (if F64.isNaN ggeo then "ok" else s!"bad(go={showB ggeo},ref=nan)")
+    else if !F64.isFinite ggeo then s!"nonfinite({showB ggeo})"
+    else
+      let L : Rat := xq.foldl (fun a x => rmax a (rabs ((ilog2 x : Int) : Rat) + 1)) 1
+      let δ : Rat := (kGeo : Rat) * pow2 (-52) * L
+      let g := toRat ggeo
+      let prod := xq.foldl (· * ·) 1
+      if (g * (1 - δ)) ^ n ≤ prod ∧ prod ≤ (g * (1 + δ)) ^ n then "ok"
+      else s!"bad(go={showB ggeo})"
+  let tbounds :=
+    if toRat gmin == minOf xq ∧ toRat gmax == maxOf xq then "ok" else s!"bad(min={showB gmin},max={showB gmax})"
+  let spct := pq.map fun p => quantileR8 srt p
+  let tpct := allOk ((gpct.zip (spct.zip ptol)).map fun (g, q, t) => judge g q t)
+  let gq := gpct.map toRat
+  let rec mono : List Rat → Bool
+    | a :: b :: r => a ≤ b && mono (b :: r)
+    | _ => true
+  let tmono := if mono gq then "ok" else "bad"
+  let tbound := if gq.all (fun v => minOf xq ≤ v ∧ v ≤ maxOf xq) then "ok" else "bad"
+  let tiqr := judge giqr (quantileR8 srt (mkRat 3 4) - quantileR8 srt (mkRat 1 4)) iqrTol
+  IO.println s!"spec {id} mean={tmean} var={tvar} sd={tsd} geo={tgeo} bounds={tbounds} pct={tpct} pmono={tmono} pbound={tbound} iqr={tiqr}"
+
+def handle (l : Line) : IO Unit := do
+  if l.kind != "case" then return
+  match l.getD "kind" with
+  | "descr" => descr l
+  | _ => pure ()
+
+end Driver.C12
+
+def main : IO Unit := do
+  let stdin ← IO.getStdin
+  Proto.forEachLine stdin fun s => Driver.C12.handle (Proto.parseLine s)
